@@ -930,4 +930,54 @@ theorem min_spec (t : T) : (vyMin t = none ↔ flattenT t = []) ∧ ∀ m, vyMin
 example : vyMax (.node [.leaf 3, .node [.leaf (-7), .leaf 9], .leaf 9]) = some 9 ∧ vyMin (.node [.leaf 3, .node [.leaf (-7)]]) = some (-7)
     ∧ vyMax (.node [.node []]) = none := by decide
 
+/-! ## consequences: idempotence, uniqueness of the sorted permutation, last prefix / last cumulative sum -/
+
+/-- on a list without repeats (in particular on its own result) uniquify is the identity -/
+theorem uniqGo_of_nodup (l seen : List Int) (hn : l.Nodup) (hd : ∀ x ∈ l, x ∉ seen) : uniqGo l seen = l := by
+  induction l generalizing seen with
+  | nil => rfl
+  | cons x xs ih =>
+    have hx : x ∉ seen := hd x (by simp)
+    have hc : seen.contains x = false := by simpa using hx
+    rw [uniqGo, hc]
+    simp only [Bool.false_eq_true, if_false]
+    rw [ih (seen ++ [x]) (List.nodup_cons.mp hn).2]
+    intro y hy
+    have hyx : y ≠ x := by
+      intro h; subst h; exact (List.nodup_cons.mp hn).1 hy
+    simp only [List.mem_append, List.mem_singleton, not_or]
+    exact ⟨hd y (by simp [hy]), hyx⟩
+
+theorem uniquify_of_nodup (l : List Int) (hn : l.Nodup) : uniquify l = l :=
+  uniqGo_of_nodup l [] hn (by simp)
+
+theorem uniquify_idempotent (l : List Int) : uniquify (uniquify l) = uniquify l :=
+  uniquify_of_nodup _ (uniquify_spec l).1
+
+/-- the ordered permutation is unique, so sorting is idempotent and blind to the order of its argument -/
+theorem sort_unique (a b : List Int) (hp : a.Perm b) : vySort a = vySort b := by
+  have ha := sort_sorted_perm a
+  have hb := sort_sorted_perm b
+  exact List.Perm.eq_of_pairwise (le := (· ≤ ·)) (fun x y _ _ h1 h2 => Int.le_antisymm h1 h2) ha.1 hb.1
+    (ha.2.trans (hp.trans hb.2.symm))
+
+theorem sort_idempotent (l : List Int) : vySort (vySort l) = vySort l := sort_unique _ _ (sort_sorted_perm l).2
+theorem sort_reverse (l : List Int) : vySort l.reverse = vySort l := sort_unique _ _ (List.reverse_perm l)
+
+/-- the last cumulative sum is the sum -/
+theorem cumsum_last (l : List Int) (h : l ≠ []) : (cumulativeSum l)[l.length - 1]? = some (vySum l) := by
+  have hl : 0 < l.length := List.length_pos_iff.mpr h
+  have := cumsum_spec l 0 (l.length - 1) (by omega)
+  rw [cumulativeSum, this]
+  have e : l.length - 1 + 1 = l.length := by omega
+  simp [e, vySum]
+/-- the last prefix is the whole list -/
+theorem prefixes_last (l : List Int) (h : l ≠ []) : (prefixes l)[l.length - 1]? = some l := by
+  have hl : 0 < l.length := List.length_pos_iff.mpr h
+  rw [prefixes_spec l (l.length - 1) (by omega)]
+  have e : l.length - 1 + 1 = l.length := by omega
+  simp [e]
+example : uniquify (uniquify [3, 1, 3, 2, 1]) = [3, 1, 2] ∧ (cumulativeSum [1, 2, 3])[2]? = some (vySum [1, 2, 3])
+    ∧ (prefixes [4, 5, 6])[2]? = some [4, 5, 6] := by decide
+
 end C16
